@@ -4,6 +4,7 @@ import (
 	"bytes"
 	"encoding/binary"
 	"fmt"
+	"hash/fnv"
 	"image"
 	"image/color"
 	"math/rand"
@@ -231,4 +232,12 @@ func gradientAlpha(rng *rand.Rand, w, h int) *image.NRGBA {
 		}
 	}
 	return img
+}
+
+func hashBytes(bs ...[]byte) uint64 {
+	h := fnv.New64a()
+	for _, b := range bs {
+		h.Write(b)
+	}
+	return h.Sum64()
 }
